@@ -74,6 +74,10 @@ class Subject(Observable[_T], Observer[_T], abc.SubjectBase[_T]):
 
         with self.lock:
             self.check_disposed()
+            if not self.is_stopped:
+                # Publish the error before the stopped flag becomes visible, so that a
+                # concurrent subscribe never mistakes an erroring subject for a completed one.
+                self.exception = error
         super().on_error(error)
 
     def _on_error_core(self, error: Exception) -> None:
